@@ -651,6 +651,7 @@ func runC06(c *Ctx) {
 	}
 	r.AddStates(int64(len(states)))
 	r.AddValidated(r.Evaluations())
+	runC06Conformance(c)
 	r.Set("validation_note", "every read schedule is executed on the real Mux (no separate model of larking); the environment model (recorder, scripted body, scripted WebSocket conn) is validated against net/http and grpc-go by the conformance pass (see C05/C10 evidence)")
 	r.Set("full_partition_max_stream_len", fullMax)
 	_ = strings.Join
